@@ -124,6 +124,8 @@ def std_job(model, gen, job):
         return {"violated": bool(hit),
                 "message": (bad[0]["msg"] if bad else "no monitor fired; the model accepts the trace")
                 + ("" if hit or not res["corr_fail"] else " [correspondence diverges]")}
+    if kind == "shrink":
+        return {"failure": std_shrink(model, prop, job["failure"])}
     if kind == "corpus":
         return run_batch(model, prop, [(it["scenario"], None, 0, it["choices"]) for it in job["items"]])
     if kind == "around":
